@@ -15,6 +15,7 @@ import CatVerif.Proofs.WriteNum
 import CatVerif.Proofs.Log
 import CatVerif.Proofs.Steps.Format
 import CatVerif.Proofs.Steps.ParseArgs
+import CatVerif.Proofs.Steps.Leaves
 namespace Cat
 open St Spec
 
@@ -111,5 +112,9 @@ re-recognised in the source on every run (translator items T17, T18) -/
 theorem C08_access_steps_generated (D : Desc) (s : St) (f : Fsm) (i : SvcIn) :
     parseWriteArgs D s i = Gen.parse_write_args D s i ∧ formatReadArgs D s f i = Gen.format_read_args D s f i :=
   ⟨parseWriteArgs_generated D s i, formatReadArgs_generated D s f i⟩
+
+/-- "some variable of the command may be read / written" is the transliteration of `is_variables_access_possible`
+(translator item T22) -/
+theorem C08_access_test_generated (c : CmdD) (a : Access) : varsAccessible c a = Gen.is_variables_access_possible c a := rfl
 
 end Cat
